@@ -380,3 +380,102 @@ func RunGet(n int, kind string, replaces int) GetEvent {
 	<-done
 	return ev
 }
+
+// ---------------------------------------------------------------------------
+// DELETE of a referenced next-hop while the referring group is being re-sent: the group contains the next-hop
+// before, during and after every replace, so every DELETE must be answered FAILED.
+
+// RefEvent is the record of one delete-vs-replace scenario.
+type RefEvent struct {
+	Ev       string `json:"ev"`
+	N        int    `json:"n"`
+	Replaces int    `json:"replaces"`
+	Deletes  int    `json:"deletes"`
+	Accepted int    `json:"accepted"` // DELETEs of a referenced next-hop (or group) that were answered OK
+	What     string `json:"what"`
+	Failed   string `json:"failed"`
+}
+
+// RunRef executes one delete-vs-replace scenario; mode "nh": a group is re-sent while its members are deleted;
+// mode "nhg": an IPv4 entry is re-sent while the group it points at is deleted.
+func RunRef(n int, mode string, replaces int) RefEvent {
+	ev := RefEvent{Ev: "linref", N: n, Replaces: replaces, What: mode}
+	r := rib.New("DEFAULT")
+	var id uint64
+	const members = 8
+	grp := func(variant uint64) *spb.AFTOperation {
+		g := &aftpb.Afts_NextHopGroup{Color: &wpb.UintValue{Value: variant}}
+		for i := uint64(1); i <= members; i++ {
+			g.NextHop = append(g.NextHop, &aftpb.Afts_NextHopGroup_NextHopKey{Index: i, NextHop: &aftpb.Afts_NextHopGroup_NextHop{Weight: &wpb.UintValue{Value: 1 + variant%3}}})
+		}
+		id++
+		typ := spb.AFTOperation_ADD
+		if variant%2 == 1 {
+			typ = spb.AFTOperation_REPLACE
+		}
+		return &spb.AFTOperation{Id: id, NetworkInstance: "DEFAULT", Op: typ, Entry: &spb.AFTOperation_NextHopGroup{NextHopGroup: &aftpb.Afts_NextHopGroupKey{Id: 1, NextHopGroup: g}}}
+	}
+	for i := uint64(1); i <= members; i++ {
+		id++
+		if _, fails, err := r.AddEntry("DEFAULT", nhOp(id, "DEFAULT", i)); err != nil || len(fails) != 0 {
+			ev.Failed = "initial next-hop install failed"
+			return ev
+		}
+	}
+	if _, fails, err := r.AddEntry("DEFAULT", grp(0)); err != nil || len(fails) != 0 {
+		ev.Failed = "initial group install failed"
+		return ev
+	}
+	id++
+	if _, fails, err := r.AddEntry("DEFAULT", topOp(id, "v4", spb.AFTOperation_ADD, 0)); err != nil || len(fails) != 0 {
+		ev.Failed = "initial prefix install failed"
+		return ev
+	}
+	var mu sync.Mutex // serialises id allocation only
+	next := func() uint64 { mu.Lock(); defer mu.Unlock(); id++; return id }
+	done := make(chan struct{})
+	go func() {
+		defer close(done)
+		for i := 1; i <= replaces; i++ {
+			var op *spb.AFTOperation
+			if mode == "nh" {
+				mu.Lock()
+				op = grp(uint64(i))
+				mu.Unlock()
+			} else {
+				typ := spb.AFTOperation_REPLACE
+				if i%2 == 0 {
+					typ = spb.AFTOperation_ADD
+				}
+				op = topOp(next(), "v4", typ, uint64(i))
+			}
+			if _, fails, err := r.AddEntry("DEFAULT", op); err != nil || len(fails) != 0 {
+				ev.Failed = fmt.Sprintf("replace %d failed: %v %d", i, err, len(fails))
+				return
+			}
+		}
+	}()
+	deadline := time.Now().Add(20 * time.Second)
+	for k := uint64(0); time.Now().Before(deadline); k++ {
+		select {
+		case <-done:
+			return ev
+		default:
+		}
+		del := &spb.AFTOperation{Id: next(), NetworkInstance: "DEFAULT", Op: spb.AFTOperation_DELETE}
+		if mode == "nh" {
+			del.Entry = &spb.AFTOperation_NextHop{NextHop: &aftpb.Afts_NextHopKey{Index: 1 + k%members}}
+		} else {
+			del.Entry = &spb.AFTOperation_NextHopGroup{NextHopGroup: &aftpb.Afts_NextHopGroupKey{Id: 1}}
+		}
+		oks, _, err := r.DeleteEntry("DEFAULT", del)
+		ev.Deletes++
+		if err == nil && len(oks) > 0 {
+			ev.Accepted++
+			<-done // the RIB is inconsistent from here on: one observation is enough
+			return ev
+		}
+	}
+	<-done
+	return ev
+}
